@@ -106,6 +106,7 @@ class LoaderIterator(BaseNode[T]):
             self._num_yielded = 0
         self._cached_item = None
         self._has_cached_item = False
+        self._cached_state_dict = None
 
     def has_next(self) -> bool:
         if not self._has_cached_item:
@@ -116,7 +117,7 @@ class LoaderIterator(BaseNode[T]):
                 self._cached_item = next(self)
                 self._has_cached_item = True
             except StopIteration:
-                pass
+                self._cached_state_dict = None
         return self._has_cached_item
 
     def next(self):
